@@ -736,7 +736,7 @@ func (ls *LState) formattedFrameFuncName(fr *callFrame) string {
 	if ischunk {
 		return name
 	}
-	if name[0] != '(' && name[0] != '<' {
+	if len(name) == 0 || (name[0] != '(' && name[0] != '<') { // a function called through t[""] has an empty name
 		return fmt.Sprintf("function '%s'", name)
 	}
 	return fmt.Sprintf("function %s", name)
